@@ -727,8 +727,7 @@ class MirFile:
         f = self._cache.get(idx)
         if f is None:
             hdr, a, b = self.items[idx]
-            self._fh.seek(a)
-            text = self._fh.read(b - a).decode('utf-8')
+            text = os.pread(self._fh.fileno(), b - a, a).decode('utf-8')
             f = parse_function(text.split('\n'), self.crate)
             f.file = self
             self._cache[idx] = f
